@@ -5,7 +5,7 @@
 (* amount class), so that every emitted case is replayed >= 5 times.        *)
 EXTENDS Keys, Json, IOUtils
 
-CONSTANTS PerGroup, CraftDepths, AlgStride, ShapeStride
+CONSTANTS PerGroup, CraftDepths, AlgStride, ShapeStride, CbStride
 
 SelSeed == IF "KEYS_SEL" \in DOMAIN IOEnv THEN atoi(IOEnv.KEYS_SEL) % 1000 ELSE 1
 
@@ -81,7 +81,10 @@ StrCode(x) == CASE x \in {"f1", "one", "Plain", "transaction"} -> 0
                 [] x \in {"fmax", "max", "partial"} -> 2
                 [] OTHER -> 3
 ShapeCode(sh) == ((((SeqCode(sh.ins) * 108 + SeqCode(sh.outs)) * 4 + StrCode(sh.fee)) * 4 + StrCode(sh.scale)) * 2 + StrCode(sh.kern)) * 4 + StrCode(sh.via)
-SelectedShape(sh) == IsCb(sh) \/ (ShapeCode(sh) * 7 + SelSeed * 31) % ShapeStride = 0
+CbCode(sh) == ((CASE sh.cbfee = "cf0" -> 0 [] sh.cbfee = "cf1" -> 1 [] sh.cbfee = "cftyp" -> 2 [] sh.cbfee = "cfmax40" -> 3 [] OTHER -> 4) * 2
+              + (IF sh.fam = "new" THEN 0 ELSE 1)) * 10 + sh.depth * 2 + (IF sh.block THEN 1 ELSE 0)
+SelectedShape(sh) == IF IsCb(sh) THEN (CbCode(sh) * 7 + SelSeed * 31) % CbStride = 0
+                     ELSE (ShapeCode(sh) * 7 + SelSeed * 31) % ShapeStride = 0
 ShapeCase(sh) ==
   IF IsCb(sh) THEN [kind |-> "cb", shape |-> sh, recoverable |-> CbRecoverable(sh)]
   ELSE [kind |-> "tx", shape |-> sh]
